@@ -184,7 +184,7 @@ def _is_instance(obj: Any, type_: Any, type_vars: Dict[TypeVar_, Any], context: 
                         f'For TypeVar {type_} exists a type conflict: value {obj} has type {type(obj)} but TypeVar {type_} '
                         f'was previously matched to type {other}')
             else:
-                if not _is_instance(obj=obj, type_=other, type_vars=type_vars, context=context):
+                if not _matches_bound_type(obj=obj, bound_type=other, type_vars=type_vars, context=context):
                     raise PedanticTypeVarMismatchException(
                         f'For TypeVar {type_} exists a type conflict: value {obj} has type {type(obj)} but TypeVar {type_} '
                         f'was previously matched to type {other}')
@@ -244,6 +244,15 @@ def _is_instance(obj: Any, type_: Any, type_vars: Dict[TypeVar_, Any], context: 
             return True  # we do not check this
 
         raise
+
+
+def _matches_bound_type(obj: Any, bound_type: Any, type_vars: Dict[TypeVar_, Any], context: Dict[str, Any]) -> bool:
+    """ A TypeVar is bound either to a plain class (the class of an earlier value) or to a type annotation. """
+
+    if isinstance(bound_type, type) and type(bound_type) != _ProtocolMeta:
+        return isinstance(obj, bound_type)
+
+    return _is_instance(obj=obj, type_=bound_type, type_vars=type_vars, context=context)
 
 
 def _is_forward_ref(type_: Any) -> bool:
